@@ -614,6 +614,38 @@ theorem slide_dimension_indices_follow_frame_order (t : SegType) (segs ord : Lis
     rw [List.pairwise_map]; exact h
   exact ⟨⟨h', nodup_of_pairwise_lexLt _ h'⟩, fun sel nC tr tc h1 h2 h3 h4 => raster_of_increasing sel nC tr tc h1 h2 h3 h4⟩
 
+/-- (10a-tiled) ... instantiated for **the object the tiled constructor builds**: tile number `p` of the grid sits at row
+`p / nC * tr + 1`, column `p % nC * tc + 1` of the total pixel matrix (`nC` tiles per row); whatever tiles were omitted and
+whatever the slide coordinates x, y, z (`extra`, `ue`) are, the slide index vectors of the stored frames are strictly increasing
+along the frames (hence pairwise different). -/
+theorem tiled_slide_indices_follow_frame_order (codec : Option Codec) (hcodec : ∀ c, codec = some c → ∀ x, c.dec (c.enc x) = x)
+    (R C tr tc : Nat) (htr : 1 ≤ tr) (htc : 1 ≤ tc) (hC : 1 ≤ C) (t : SegType) (segs : List Nat) (mfv : Nat) (omt : Bool)
+    (m : Mask) (o : SegObj) (hb : buildTiled codec R C tr tc t segs mfv omt m = .ok o)
+    (extra : Nat → List Rat) (ue : List (List Rat)) :
+    ∃ ord : List Nat, ord.Pairwise (· < ·) ∧ (∀ k ∈ o.keys, k.2 ∈ ord) ∧
+      ((o.keys.map fun k => slideDimIndexValues
+          (uniqueSorted (ord.map fun p => ((p / tilesAlong C tc * tr + 1 : Nat) : Rat)) ::
+           uniqueSorted (ord.map fun p => ((p % tilesAlong C tc * tc + 1 : Nat) : Rat)) :: ue) k.1
+          (((k.2 / tilesAlong C tc * tr + 1 : Nat) : Rat) :: ((k.2 % tilesAlong C tc * tc + 1 : Nat) : Rat) :: extra k.2)).Pairwise
+        (fun a b => lexLt a b = true)) := by
+  unfold buildTiled at hb
+  split at hb
+  · cases hb
+  split at hb
+  · cases hb
+  have hin : ∀ p ∈ List.range (tileMask R C tr tc m).numPlanes, p < (tileMask R C tr tc m).numPlanes :=
+    fun p hp => List.mem_range.mp hp
+  obtain ⟨arr, ov, _, hsub, _⟩ := frames_read codec hcodec tr tc t segs mfv omt _ (tileMask R C tr tc m) hin o hb
+  obtain ⟨_, _, _, _, _, hca, _⟩ := build_inv _ _ _ _ _ _ _ _ _ _ hb
+  have hcs := (checkArgs_inv _ _ _ _ _ hca).1
+  have hord : ((planOrder arr mfv omt (List.range (tileMask R C tr tc m).numPlanes)).2).Pairwise (· < ·) :=
+    List.Pairwise.sublist (planOrder_sublist arr mfv omt _) List.pairwise_lt_range
+  have hnC : 0 < tilesAlong C tc := Nat.lt_of_le_of_lt (Nat.zero_le _) (div_lt_tilesAlong C tc 0 htc (by omega))
+  refine ⟨_, hord, fun k hk => ((mem_cells t segs _ k).mp (hsub.subset hk)).2, ?_⟩
+  exact (slide_dimension_indices_follow_frame_order t segs _ hcs
+    (fun p => ((p / tilesAlong C tc * tr + 1 : Nat) : Rat)) (fun p => ((p % tilesAlong C tc * tc + 1 : Nat) : Rat)) extra ue
+    (raster_of_increasing _ (tilesAlong C tc) tr tc hnC (by omega) (by omega) hord) o.keys hsub).1.1
+
 /-- non-vacuity of (10a''): a 2 × 3 grid of tiles with tile (0, 1) omitted, two segments; x runs against the column -/
 example : (([(some 1, 0), (some 1, 2), (some 2, 3)] : List (Option Nat × Nat)).map fun k =>
       slideDimIndexValues [uniqueSorted ([0, 2, 3].map fun p => ((p / 3 * 4 + 1 : Nat) : Rat)),
